@@ -331,7 +331,8 @@ Theorem C12_source_facts :
   c12_fact_narrow && c12_fact_exact && c12_fact_special && c12_fact_lastwins && c12_fact_onlydirs &&
   c12_fact_at_eof && c12_fact_chmod_files && c12_fact_mkdir && c12_fact_baselink &&
   c12_fact_ids && c12_fact_times && c12_fact_rootlink && c12_fact_name &&
-  c12_fact_verify_after && c12_fact_skip_restore && c12_fact_unpack_test = true.
+  c12_fact_verify_after && c12_fact_skip_restore && c12_fact_unpack_test &&
+  c12_fact_deepest_first && c12_fact_lstat_walk && c12_fact_outside = true.
 Proof. exact source_facts. Qed.
 Print Assumptions C12_source_facts.
 
